@@ -85,6 +85,7 @@ def check(ctx):
     lammps_bounds(ctx, "C01-R7")
     r7_time_text(ctx)
     r4_overflow(ctx)
+    r4_box_lookahead(ctx)
     r2_fields_unconditional(ctx)
     ctx.rule("C01-R6", "in `for i in range(self.n_frames)` loops of savers every per-frame argument of f.write is subscripted by the loop variable")
     reg = F.registry(ctx)
@@ -612,3 +613,25 @@ def r2_fields_unconditional(ctx):
                 ctx.decide(ok, "C01-R2", c, TRAJ, q, "time=self.time (the trajectory's own times)", "", "`time=%s`: the times written may differ from the trajectory's (a flag or default decides), so the loaded times differ from the saved ones" % src(v)[:70])
     if n_sites < 3:
         raise AnalysisError("only %d `time=` arguments found in the savers" % n_sites)
+
+
+def r4_box_lookahead(ctx):
+    """mdcrd: the optional box line is recognised by tokenising the next line at white space; a coordinate line whose fixed-width fields touch must not make that fail."""
+    MD = "mdtraj/formats/mdcrd.py"
+    fn = ctx.py.func(MD, "MDCRDTrajectoryFile._read")
+    m = ctx.py.mod(MD)
+    peeks = [n for n in ast.walk(fn) if isinstance(n, ast.Assign) and isinstance(n.targets[0], ast.Name) and isinstance(n.value, ast.ListComp) and "split()" in src(n.value) and "float(" in src(n.value)]
+    if not peeks:
+        ctx.holds("C01-R4", fn, MD, "MDCRDTrajectoryFile._read", "the box look-ahead does not tokenise at white space", "no float(...) over split() tokens found")
+        return
+    for p_ in peeks:
+        x = p_
+        guarded = False
+        while x in m.parents and m.parents[x] is not fn:
+            x = m.parents[x]
+            if isinstance(x, ast.Try) and any(h.type is None or "ValueError" in src(h.type) or "Exception" in src(h.type) for h in x.handlers) and p_ in list(ast.walk(ast.Module(body=x.body, type_ignores=[]))):
+                guarded = True
+                break
+        ctx.decide(guarded, "C01-R4", p_, MD, "MDCRDTrajectoryFile._read", "white-space tokenising of the look-ahead line tolerates touching fixed-width fields", "",
+                   "`%s` converts white-space tokens of the line after a frame: when that line is the next frame's first coordinate line and two %%8.3f fields touch (a value <= -100), float() raises and a file "
+                   "written without unit cell cannot be read back" % src(p_)[:70])
